@@ -1115,6 +1115,62 @@ Section BRIDGE.
             specialize (Hord x y Hx Hy). unfold ts_leb in Hord. cbn [out_of o_ts].
             destruct (c_asc c); now apply Z.leb_le.
       Qed.
+
+      (* round 8: the select UNDER the outermost one (what MainFinalizerPlanner.Process returns when ctx.CHFinalize is not
+         set) already evaluates to the reference answer; its five-column rows read back as the lines *)
+      Lemma log_plan_inner :
+        exists req rows outs,
+          log_select q c = Some (final_select req)
+          /\ eval re_match parse_float json_get hash_labels tie (to_sqldb c d) req = Some rows
+          /\ map row_out rows = map Some outs
+          /\ logql_sem re_match parse_float q c d outs.
+      Proof.
+        assert (Hfs : forall f, List.In f (slfs ppl) -> lf_supported f = true /\ lf_oracle_ok parse_float f).
+        { intros f Hf. apply slfs_in in Hf. split.
+          - rewrite forallb_forall in Hsup. apply (Hsup _ Hf).
+          - apply (Horacle _ Hf). }
+        assert (Hlo : forall t, List.In t (lfts ppl) -> stage_oracle_ok re_match parse_float (lft_stage t)).
+        { intros t Ht. apply lfts_in in Ht. apply (Horacle _ Ht). }
+        destruct (log_select_shape ms ppl Hne Hsup Hfs) as [wq [Hq Hsel]]. fold F in Hq.
+        destruct (es_main ("fp_sel", wq) (lfts ppl) F Hq Hlo) as [xs [Hxs Hmain]].
+        pose proof (es_ts ("fp_sel", wq) F Hq) as Hts.
+        set (ml := limited (isort ts_leb xs)) in *.
+        assert (Hml : forall x, List.In x ml -> List.In x (d_samples d) /\ main_pred F (lfts ppl) x = true).
+        { intros x Hx. assert (Hx' : List.In x (isort ts_leb xs)).
+          { unfold ml, limited in Hx. destruct (c_limit c =? 0)%Z; [exact Hx|]. now apply in_firstn in Hx. }
+          apply (Permutation_in _ (isort_perm ts_leb xs)) in Hx'. apply (Permutation_in _ Hxs) in Hx'.
+          now apply filter_In in Hx'. }
+        destruct (es_join _ _ ml (filter (ts_pred F) (d_series d)) Hmain Hts) as [tl' [Htl Hjoin]].
+        { intros x Hx. destruct (Hml x Hx) as [H1 H2].
+          destruct (labels_in_sem _ x (Permutation_refl _) H1 H2) as [_ [s [Hs Hfp]]]. now exists s. }
+        assert (Hout : map row_out (map (fun x => pre_row (x, labels_in tl' x)) ml) = map Some (map (out_of d) ml)).
+        { rewrite !map_map. apply map_ext_in. intros x Hx. destruct (Hml x Hx) as [H1 H2].
+          destruct (labels_in_sem tl' x Htl H1 H2) as [Hl _]. cbn. unfold out_of. now rewrite Hl. }
+        assert (Hx : exists outs, outs = map (out_of d) ml /\ Permutation (map (out_of d) ml) outs)
+          by (eexists; split; [reflexivity|apply Permutation_refl]).
+        destruct Hx as [outs [Eouts Hpo]].
+        exists (join_select (main_select ("fp_sel", wq) (lfts ppl)) (ts_select ("fp_sel", wq))),
+               (map (fun x => pre_row (x, labels_in tl' x)) ml), outs.
+        split; [exact Hsel|]. split; [exact Hjoin|]. split; [rewrite Eouts; exact Hout|].
+        assert (Hfilt : filter (main_pred F (lfts ppl)) (d_samples d) = filter (sample_ok re_match parse_float q c d) (d_samples d)).
+        { apply filter_ext_in. intros x Hx. now apply main_pred_sem. }
+        rewrite Hfilt in Hxs.
+        unfold logql_sem, log_rows. unfold ml, limited in Hpo.
+        destruct (c_limit c =? 0)%Z eqn:El.
+        - eapply Permutation_trans; [apply Permutation_sym, Hpo|]. apply Permutation_map.
+          eapply Permutation_trans; [apply isort_perm|exact Hxs].
+        - destruct (limit_topk ts_leb ts_leb_total ts_leb_trans xs (Z.to_nat (c_limit c))) as [rest [Hperm [Hlen' Hord]]].
+          exists (map (out_of d) rest). split; [|split].
+          + eapply Permutation_trans; [apply Permutation_map, Permutation_sym, Hxs|].
+            eapply Permutation_trans; [apply Permutation_map, Hperm|]. rewrite map_app.
+            apply Permutation_app_tail. exact Hpo.
+          + rewrite <- (Permutation_length Hpo), !map_length, Hlen', (Permutation_length Hxs).
+            destruct ctx_names as [_ [_ [_ [_ [_ [_ Hl0]]]]]]. lia.
+          + intros r o Hr Ho. apply (Permutation_in _ (Permutation_sym Hpo)) in Hr.
+            apply in_map_iff in Hr. destruct Hr as [x [<- Hx]]. apply in_map_iff in Ho. destruct Ho as [y [<- Hy]].
+            specialize (Hord x y Hx Hy). unfold ts_leb in Hord. cbn [out_of o_ts].
+            destruct (c_asc c); now apply Z.leb_le.
+      Qed.
     End QUERY.
   End SEMANTICS.
 End BRIDGE.
